@@ -9,6 +9,7 @@ import (
 	"net/http"
 	"net/http/httptest"
 	"reflect"
+	"strconv"
 	"strings"
 	"time"
 
@@ -30,6 +31,23 @@ func cFl(f float64) string {
 func c17Strength(pw, user string) string {
 	s := zxcvbn.PasswordStrength(pw, []string{user, "whawty"})
 	return fmt.Sprintf("{| z_score := %s; z_entropy := %s; z_time := %s |}", cZ(int64(s.Score)), cFl(s.Entropy), cFl(s.CrackTime))
+}
+
+// the condition evaluated by the harness itself on the estimator's values
+type c17Oracle struct{ cond string }
+
+func (o c17Oracle) Check(pw, user string) (bool, error) {
+	f := strings.Fields(o.cond)
+	thr, _ := strconv.ParseFloat(f[2], 64)
+	z := zxcvbn.PasswordStrength(pw, []string{user, "whawty"})
+	switch f[0] {
+	case "score":
+		return float64(z.Score) >= thr, nil
+	case "entropy":
+		return z.Entropy >= thr, nil
+	default:
+		return z.CrackTime >= thr, nil
+	}
 }
 
 func runC17(em *vEmitter, r *vRng) {
@@ -143,7 +161,7 @@ func runC17(em *vEmitter, r *vRng) {
 	conditions := []string{"score >= 3", "entropy >= 45", "time >= 100000"}
 	cands := []string{"a", "password", "alice2016", "Tr0ub4dor&3", "correct horse battery staple", "x7Gq2LmPz9Wt4Rb6", "newuser1", "whawty123"}
 	for _, cond := range conditions {
-		pol, _ := NewPasswordPolicy("zxcvbn", cond)
+		pol := c17Oracle{cond} // the estimator called directly: no state shared with the agent's policy
 		for pi, p := range paths {
 			for ci, pw := range cands {
 				x := newC17Agent(r, cond, "")
@@ -176,6 +194,49 @@ func runC17(em *vEmitter, r *vRng) {
 				x.ms.cleanup()
 				_ = pi
 			}
+		}
+		// sequences of requests in ONE running agent: a verdict must not depend on what was asked before
+		// (in particular not on another user's request whose name and password concatenate to the same string)
+		type rq struct{ u, pw string }
+		seqs := [][]rq{
+			{{"quex", "azolbrimquexazolbrim"}, {"quexazolbrim", "quexazolbrim"}},
+			{{"quexazolbrim", "quexazolbrim"}, {"quex", "azolbrimquexazolbrim"}},
+			{{"al", "Zq8vP2kL9wX4nB7password"}, {"alZq8vP2kL9wX4nB7", "password"}, {"al", "Zq8vP2kL9wX4nB7password"}},
+			{{"alZq8vP2kL9wX4nB7", "password"}, {"al", "Zq8vP2kL9wX4nB7password"}, {"alZq8vP2kL9wX4nB7", "password"}},
+			{{"u1", "x7Gq2LmPz9Wt4Rb6"}, {"u2", "x7Gq2LmPz9Wt4Rb6"}, {"u1x7Gq2LmPz9", "Wt4Rb6"}, {"u3", "a"}, {"u3", "x7Gq2LmPz9Wt4Rb6"}, {"u4", "a"}},
+			{{"same", "password"}, {"same", "password"}, {"same", "Tr0ub4dor&3 same!"}, {"same2", "password"}},
+		}
+		for si, sq := range seqs {
+			x := newC17Agent(r, cond, "")
+			for qi, q := range sq {
+				verdict, _ := pol.Check(q.pw, q.u)
+				before := x.ms.snapshotTerm()
+				err := x.api.Add(q.u, q.pw, false)
+				exists := err != nil && strings.Contains(fmt.Sprint(err), "exist")
+				if exists { // the user is there from an earlier step: ask for an update instead
+					err = x.api.Update(q.u, q.pw)
+				}
+				after := x.ms.snapshotTerm()
+				ok := err == nil
+				viol := ""
+				if !verdict && (ok || before != after) {
+					viol = fmt.Sprintf("request %d of sequence %d stored a password that fails the policy %q: user %q password %q", qi, si, cond, q.u, q.pw)
+				}
+				if verdict && !ok && strings.Contains(fmt.Sprint(err), "policy") {
+					viol = fmt.Sprintf("request %d of sequence %d: a password that satisfies %q was refused on policy grounds: user %q password %q", qi, si, cond, q.u, q.pw)
+				}
+				c := vCase{Prop: "C17", Kind: "path", Class: "path/sequence", Nontrivial: true,
+					Coq:   fmt.Sprintf("PathCase %s %s %s", cB(verdict), cB(ok || !strings.Contains(fmt.Sprint(err), "policy")), cB(before != after)),
+					Human: map[string]interface{}{"sequence": si, "request": qi, "condition": cond, "user": q.u, "pw": q.pw, "policy_ok": verdict, "acknowledged": ok, "changed": before != after, "err": truncS(fmt.Sprint(err), 100)}}
+				if !verdict {
+					c.Coq = fmt.Sprintf("PathCase false %s %s", cB(ok), cB(before != after))
+				}
+				if viol != "" {
+					c.Violation = viol
+				}
+				em.emit(c)
+			}
+			x.ms.cleanup()
 		}
 		// init path (empty directory) and the local-upgrade path
 		for _, pw := range cands[:5] {
